@@ -90,6 +90,8 @@ package blocklist
 //@   requires b != nil && b.cfg != nil
 //@   nosafety all
 //@   assert at call os.CreateTemp#1: s.version == 0 || s.version > old(b.lastPersisted)
+//@   # the temporary carries the prefix the loader recognises and skips, and is created in the list's own directory
+//@   assert at call os.CreateTemp#1: arg1 == "local.tmp.*" && arg0 == b.cfg.BlockListDir
 //@   assert at call os.Rename#1: calls("(*os.File).Sync") == 1 && calls("(*os.File).Close") == 1 && calls("os.Rename") == 0 && arg0 == tmpName && arg1 == path
 //@   loop 1 invariant lastret("(*os.File).WriteString", 1) == nil && calls("github.com/semihalev/zlog/v2.Warn") == 0 && calls("(*middleware/blocklist.BlockList).persist$2") == 0 && calls("os.Rename") == 0 && calls("(*os.File).Sync") == 0 && calls("(*os.File).Close") == 0 && calls("os.CreateTemp") == 1
 //@   loop 2 invariant lastret("(*os.File).WriteString", 1) == nil && calls("github.com/semihalev/zlog/v2.Warn") == 0 && calls("(*middleware/blocklist.BlockList).persist$2") == 0 && calls("os.Rename") == 0 && calls("(*os.File).Sync") == 0 && calls("(*os.File).Close") == 0 && calls("os.CreateTemp") == 1
@@ -120,6 +122,16 @@ package blocklist
 //@   assert at return#2: result == 0 && calls("(*middleware/blocklist.BlockList).persist") == 0
 //@
 //@ # loading a hosts file: every name field is canonicalised before it is tested and added; comment fields end a line
+//@ # "an interruption during persistence leaves the previous complete file rather than a partial one": what an
+//@ # interrupted persist leaves behind (a file whose name starts with the prefix persist's temporaries carry) is never
+//@ # opened as a blocklist; it is removed
+//@ func (*BlockList).readBlocklists$1
+//@   abstract
+//@   nosafety all pre
+//@   assert at call os.Open#1: !lastret("strings.HasPrefix") && arg0 == path
+//@   assert at call strings.HasPrefix#1: arg1 == "local.tmp." && calls("(os.FileInfo).Name") + calls("(io/fs.FileInfo).Name") == 1
+//@   assert at call os.Remove#1: lastret("strings.HasPrefix") && arg0 == path && calls("os.Open") == 0
+//@
 //@ func (*BlockList).parseHostFile
 //@   abstract
 //@   nosafety all pre
